@@ -14,19 +14,19 @@ package ecs
 // id index is empty, stored observer pointers are not nil.
 //@ pred obsResetInv(m *observerManager) :=
 //@      obsShape(m)
-//@   && (forall e uint8 :: e > uint8(m.maxEventType) ==> !m.hasObservers[e] && len(m.observers[e]) == 0)
-//@   && (forall e uint8 :: !m.hasObservers[e] ==> len(m.observers[e]) == 0)
-//@   && (len(m.indices) == 0 ==> (forall e uint8 :: !m.hasObservers[e]))
+//@   && (forall e int :: int(m.maxEventType) < e && e < 256 ==> !m.hasObservers[e] && len(m.observers[e]) == 0)
+//@   && (forall e int :: 0 <= e && e < 256 && !m.hasObservers[e] ==> len(m.observers[e]) == 0)
+//@   && (len(m.indices) == 0 ==> (forall e int :: 0 <= e && e < 256 ==> !m.hasObservers[e]))
 //@   && (forall e int, k int :: 0 <= e && e < 256 && 0 <= k && k < len(m.observers[e]) ==> m.observers[e][k] != nil)
 
 //@ func (*observerManager).Reset
 //@   serves C16 C08
 //@   requires obsResetInv(m)
-//@   loop 1 invariant cleared: forall e uint8 :: int(e) < i ==> !m.hasObservers[e] && len(m.observers[e]) == 0
-//@   loop 1 invariant rest: forall e uint8 :: int(e) >= i ==> m.hasObservers[e] == old(m.hasObservers[e]) && __same(m.observers[e], old(m.observers[e]))
+//@   loop 1 invariant cleared: forall e int :: 0 <= e && e < i ==> !m.hasObservers[e] && len(m.observers[e]) == 0
+//@   loop 1 invariant rest: forall e int :: i <= e && e < 256 ==> m.hasObservers[e] == old(m.hasObservers[e]) && __same(m.observers[e], old(m.observers[e]))
 //@   loop 1 invariant shape: obsShape(m) && m.maxEventType == old(m.maxEventType)
 //@   loop 2 invariant shape: obsShape(m) && m.maxEventType == old(m.maxEventType)
-//@   ensures  none: forall e uint8 :: !m.hasObservers[e] && len(m.observers[e]) == 0
+//@   ensures  none: forall e int :: 0 <= e && e < 256 ==> !m.hasObservers[e] && len(m.observers[e]) == 0
 //@   ensures  zero: m.totalCount == 0 || old(len(m.indices)) == 0
 //@   ensures  maxevent: m.maxEventType == 0
 
